@@ -518,7 +518,12 @@ func (r *logRow) toCore() (*ledger.Log, error) {
 		IdempotencyHash: r.IHash, ID: &id, SchemaVersion: r.SchemaVersion}, nil
 }
 
+// readLogWithIK: `WHERE idempotency_key = ?` — an empty key is stored as NULL
+// (nullzero) and NULL equals nothing, so "" finds no log.
 func (t *tables) readLogWithIK(ik string) (*ledger.Log, error) {
+	if ik == "" {
+		return nil, postgres.ErrNotFound
+	}
 	for _, r := range t.Logs {
 		if r.IK == ik {
 			return r.toCore()
